@@ -535,6 +535,14 @@ class Printer:
             raise Unsupported('type trait ' + str(n.get('name')))
         if k == 'CXXMemberCallExpr':
             return self.member_call(n)
+        if k == 'CXXDynamicCastExpr':
+            # dynamic_cast<T>(p): RTTI is outside the printed subset; the spec maps it like a call (key
+            # `dynamic_cast|<target type>|<operand type>`) to a stub over a ghost type tag (assumed contract of RTTI)
+            key = f'dynamic_cast|{strip_cv(qual(n["type"]))}|{strip_cv(qual(inner[0]["type"]))}'
+            m = self.lookup(self.calls, key)
+            if m is None:
+                raise Unsupported(f'dynamic_cast not mapped: {key}')
+            return self.apply(m, inner[:1], node=n, key=key)
         if k in ('CallExpr', 'CXXOperatorCallExpr'):
             return self.call(n)
         if k in ('CXXConstructExpr', 'CXXTemporaryObjectExpr'):
